@@ -221,6 +221,9 @@ func (w *e2World) choose(en []*vs.Actor, cur *vs.Actor) int {
 		return bi
 	}
 	t := w.t
+	if t == nil {
+		return 0 // no generator: natural order (the running actor continues, else the oldest enabled actor)
+	}
 	// fairness: an enabled actor that has not run for a long time goes first, whatever the strategy says.
 	// Spin-waiting code (a poller on a level-triggered event, a stop() loop) relies on the other party
 	// getting CPU time eventually; without this a priority-based schedule starves it and looks like a livelock.
